@@ -1,48 +1,777 @@
 package h_promqlx
 
+// C29: aggregations and binary operators follow the documented semantics.
+//
+// Engine E1 (input enumeration). Every case is one instant query evaluated by the real engine
+// (promql.NewEngine / NewInstantQuery / Exec) over a real TSDB (util/teststorage) that holds the
+// input vectors, compared with the reference evaluator of c29_ref_test.go.
+//
+// Input vectors live in "slots": slot k of a storage block is the instant t=(k+1)*10min, further
+// apart than the lookback delta, so that a selector evaluated at that instant sees exactly the
+// samples of the slot. Aggregation inputs use the metric names m/n, left operands l/k, right
+// operands r/q.
+
 import (
 	"context"
 	"fmt"
+	"math"
+	"strconv"
+	"sync/atomic"
 	"testing"
-	"time"
 
+	"github.com/prometheus/prometheus/internal/verif/vx"
 	"github.com/prometheus/prometheus/model/labels"
+	"github.com/prometheus/prometheus/promql"
 )
 
-func TestVerifC29(t *testing.T) {
+const c29SlotMs = 600000
+
+var c29Vals = []float64{1, 2, 0, math.NaN(), math.Inf(1), math.Inf(-1)}
+
+// c29Series is one series identity: name + optional a, b.
+type c29Series struct{ name, a, b string }
+
+func (s c29Series) labels() map[string]string {
+	m := map[string]string{c29Name: s.name}
+	if s.a != "" {
+		m["a"] = s.a
+	}
+	if s.b != "" {
+		m["b"] = s.b
+	}
+	return m
+}
+
+// c29Combos: {a,b} in {absent,"1","2"}, simplest first.
+func c29Combos(name string) []c29Series {
+	var out []c29Series
+	for _, ab := range [][2]string{{"", ""}, {"1", ""}, {"", "1"}, {"1", "1"}, {"2", ""}, {"1", "2"}, {"2", "1"}, {"", "2"}, {"2", "2"}} {
+		out = append(out, c29Series{name, ab[0], ab[1]})
+	}
+	return out
+}
+
+// c29Sets lists all subsets of pool with minSize..maxSize elements, smallest first; with
+// mustTouch >= 0 only subsets containing an index >= mustTouch.
+func c29Sets(n, minSize, maxSize, mustTouch int) [][]int {
+	var out [][]int
+	vx.Subsets(n, maxSize, func(idx []int) bool {
+		if len(idx) < minSize {
+			return true
+		}
+		if mustTouch >= 0 {
+			ok := false
+			for _, i := range idx {
+				if i >= mustTouch {
+					ok = true
+				}
+			}
+			if !ok {
+				return true
+			}
+		}
+		out = append(out, append([]int{}, idx...))
+		return true
+	})
+	return out
+}
+
+// c29Tier is one enumerated family of (slot, expression) cases.
+type c29Tier struct {
+	Name    string
+	NSlots  int
+	Slot    func(i int) []ag_Sample // all samples of slot i
+	Exprs   []*c29Expr
+	ASel    string
+	LSel    string
+	RSel    string
+	Block   int // slots per storage
+	Delayed bool
+	Desc    string
+}
+
+func c29Pick(samples []ag_Sample, names ...string) []ag_Sample {
+	var out []ag_Sample
+	for _, s := range samples {
+		for _, n := range names {
+			if s.L[c29Name] == n {
+				out = append(out, s)
+			}
+		}
+	}
+	return out
+}
+
+// ---------------------------------------------------------------------------------------------
+// expression generators
+// ---------------------------------------------------------------------------------------------
+
+func c29Groupings(full bool) []*c29Grouping {
+	g := []*c29Grouping{
+		nil,
+		{false, []string{}}, {false, []string{"a"}}, {false, []string{"b"}}, {false, []string{"a", "b"}},
+		{false, []string{c29Name}}, {false, []string{"a", c29Name}},
+		{true, []string{}}, {true, []string{"a"}}, {true, []string{"b"}}, {true, []string{"a", "b"}},
+	}
+	if full {
+		g = append(g, &c29Grouping{false, []string{"b", "a"}}, &c29Grouping{true, []string{c29Name}},
+			&c29Grouping{false, []string{"c"}})
+	}
+	return g
+}
+
+func c29AggExprs(full bool) []*c29Expr {
+	var out []*c29Expr
+	num := func(op string, texts ...string) [][2]string {
+		var o [][2]string
+		for _, t := range texts {
+			o = append(o, [2]string{op, t})
+		}
+		return o
+	}
+	var forms [][2]string
+	for _, op := range []string{"sum", "avg", "min", "max", "count", "group", "stddev", "stdvar"} {
+		forms = append(forms, [2]string{op, ""})
+	}
+	forms = append(forms, num("quantile", "0.5", "0", "1", "0.25", "-0.5", "1.5", "NaN")...)
+	if full {
+		forms = append(forms, num("quantile", "0.75", "0.1")...)
+	}
+	ks := []string{"1", "2", "0", "3"}
+	if full {
+		ks = append(ks, "-1", "4")
+	}
+	forms = append(forms, num("topk", ks...)...)
+	forms = append(forms, num("bottomk", ks...)...)
+	if full {
+		forms = append(forms, num("limitk", ks...)...)
+	} else {
+		forms = append(forms, num("limitk", "1", "2")...)
+	}
+	forms = append(forms, [2]string{"count_values", "v"})
+	for _, f := range forms {
+		for _, g := range c29Groupings(full) {
+			e := &c29Expr{Kind: "agg", Op: f[0], Grp: g}
+			if f[0] == "count_values" {
+				e.HasParam, e.ParamS, e.ParamText = true, f[1], strconv.Quote(f[1])
+			} else if f[1] != "" {
+				e.HasParam, e.ParamText = true, f[1]
+				e.ParamF = c29ParseF(f[1])
+			}
+			out = append(out, e)
+		}
+	}
+	return out
+}
+
+func c29ParseF(s string) float64 {
+	switch s {
+	case "NaN":
+		return math.NaN()
+	case "Inf", "+Inf":
+		return math.Inf(1)
+	case "-Inf":
+		return math.Inf(-1)
+	}
+	f, err := strconv.ParseFloat(s, 64)
+	if err != nil {
+		panic(err)
+	}
+	return f
+}
+
+type c29OpForm struct {
+	op string
+	b  bool
+}
+
+func c29OpForms(ops []string, withBool bool) []c29OpForm {
+	var out []c29OpForm
+	for _, o := range ops {
+		out = append(out, c29OpForm{o, false})
+		if withBool && c29IsCmp(o) {
+			out = append(out, c29OpForm{o, true})
+		}
+	}
+	return out
+}
+
+var (
+	c29ArithOps = []string{"+", "-", "*", "/", "%", "^", "atan2"}
+	c29CmpOps   = []string{"==", "!=", ">", "<", ">=", "<="}
+	c29SetOps   = []string{"and", "or", "unless"}
+)
+
+type c29Clause struct {
+	has    bool
+	on     bool
+	labels []string
+}
+
+type c29Group struct {
+	card  int
+	inc   []string
+	paren bool
+}
+
+type c29Fill struct {
+	text string
+	l, r *float64
+}
+
+func c29F(f float64) *float64 { return &f }
+
+func c29If(c bool, q, th int) int {
+	if c {
+		return th
+	}
+	return q
+}
+
+func c29Fills(n int) []c29Fill {
+	all := []c29Fill{
+		{"", nil, nil},
+		{"fill(0)", c29F(0), c29F(0)},
+		{"fill_left(1)", c29F(1), nil},
+		{"fill_right(2)", nil, c29F(2)},
+		{"fill_right(0) fill_left(2)", c29F(2), c29F(0)},
+		{"fill_left(NaN) fill_right(Inf)", c29F(math.NaN()), c29F(math.Inf(1))},
+	}
+	return all[:n]
+}
+
+func c29Clauses(withName, full bool) []c29Clause {
+	c := []c29Clause{
+		{false, false, nil},
+		{true, true, []string{}}, {true, true, []string{"a"}}, {true, true, []string{"b"}}, {true, true, []string{"a", "b"}},
+		{true, false, []string{"a"}}, {true, false, []string{"b"}}, {true, false, []string{"a", "b"}},
+	}
+	if full {
+		c = append(c, c29Clause{true, false, []string{}}, c29Clause{true, true, []string{"b", "a"}}, c29Clause{true, true, []string{"c"}})
+	}
+	if withName {
+		c = append(c, c29Clause{true, true, []string{c29Name}}, c29Clause{true, true, []string{c29Name, "a"}}, c29Clause{true, false, []string{c29Name}})
+	}
+	return c
+}
+
+func c29Groups(full bool) []c29Group {
+	g := []c29Group{{0, nil, false}, {1, nil, false}, {1, []string{"a"}, false}, {1, []string{"b"}, false}, {2, nil, false}, {2, []string{"a"}, false}, {2, []string{"b"}, false}}
+	if full {
+		g = append(g, c29Group{1, nil, true}, c29Group{1, []string{"a", "b"}, false}, c29Group{2, []string{"c"}, false})
+	}
+	return g
+}
+
+// c29VVExprs: the product of operator forms, matching clauses, group modifiers and fill modifiers,
+// leaving out only what the grammar rejects (set operators take no group/fill/bool modifiers; a
+// label cannot be in on() and in the group modifier).
+func c29VVExprs(forms []c29OpForm, clauses []c29Clause, groups []c29Group, fills []c29Fill) []*c29Expr {
+	var out []*c29Expr
+	for _, f := range forms {
+		for _, c := range clauses {
+			for _, g := range groups {
+				if g.card != 0 && (c29IsSet(f.op) || !c.has) {
+					continue // grammar: group modifiers follow on()/ignoring() and never a set operator
+				}
+				bad := false
+				if c.has && c.on {
+					for _, x := range g.inc {
+						if c29HasLabel(c.labels, x) {
+							bad = true
+						}
+					}
+				}
+				if bad {
+					continue
+				}
+				for _, fl := range fills {
+					if c29IsSet(f.op) && fl.text != "" {
+						continue
+					}
+					out = append(out, &c29Expr{Kind: "vv", Op: f.op, Bool: f.b, HasMatch: c.has, On: c.on, MLabels: c.labels,
+						Card: g.card, Include: g.inc, IncParen: g.paren, FillL: fl.l, FillR: fl.r, FillText: fl.text})
+				}
+			}
+		}
+	}
+	return out
+}
+
+func c29ScalarText(f float64) string {
+	switch {
+	case math.IsNaN(f):
+		return "NaN"
+	case math.IsInf(f, 1):
+		return "Inf"
+	case math.IsInf(f, -1):
+		return "(-Inf)" // parenthesised: ^ binds tighter than unary minus
+	}
+	return strconv.FormatFloat(f, 'g', -1, 64)
+}
+
+// c29ScalarExprs: vector/scalar, scalar/vector and scalar/scalar forms for every operator and
+// every scalar of the value alphabet.
+func c29ScalarExprs() []*c29Expr {
+	var out []*c29Expr
+	forms := c29OpForms(append(append([]string{}, c29ArithOps...), c29CmpOps...), true)
+	for _, f := range forms {
+		for _, s := range c29Vals {
+			out = append(out, &c29Expr{Kind: "vs", Op: f.op, Bool: f.b, SR: s, SRText: c29ScalarText(s)})
+			out = append(out, &c29Expr{Kind: "sv", Op: f.op, Bool: f.b, SL: s, SLText: c29ScalarText(s)})
+			if c29IsCmp(f.op) && !f.b {
+				continue // scalar/scalar comparisons require bool
+			}
+			for _, s2 := range c29Vals {
+				out = append(out, &c29Expr{Kind: "ss", Op: f.op, Bool: f.b, SL: s, SLText: c29ScalarText(s), SR: s2, SRText: c29ScalarText(s2)})
+			}
+		}
+	}
+	return out
+}
+
+// ---------------------------------------------------------------------------------------------
+// slot generators
+// ---------------------------------------------------------------------------------------------
+
+// c29VecSlots: every vector made of one of the series sets with every assignment of vals.
+func c29VecSlots(pool []c29Series, sets [][]int, vals []float64) (int, func(i int) []ag_Sample) {
+	// offsets per set
+	offs := make([]int, len(sets)+1)
+	for i, s := range sets {
+		n := 1
+		for range s {
+			n *= len(vals)
+		}
+		offs[i+1] = offs[i] + n
+	}
+	return offs[len(sets)], func(i int) []ag_Sample {
+		lo, hi := 0, len(sets)
+		for lo+1 < hi {
+			mid := (lo + hi) / 2
+			if offs[mid] <= i {
+				lo = mid
+			} else {
+				hi = mid
+			}
+		}
+		set := sets[lo]
+		rem := i - offs[lo]
+		out := make([]ag_Sample, len(set))
+		for k := len(set) - 1; k >= 0; k-- {
+			out[k] = ag_Sample{L: pool[set[k]].labels(), V: vals[rem%len(vals)]}
+			rem /= len(vals)
+		}
+		return out
+	}
+}
+
+// c29PairSlots: every (left set, right set) pair with values from a fixed per-position pattern.
+// Patterns are chosen so that equal, smaller, larger and NaN operands all occur.
+var c29Patterns = [][2][]float64{
+	{{1, 2, 0}, {1, 1, math.NaN()}},
+	{{2, math.NaN(), 1}, {0, 2, math.Inf(1)}},
+}
+
+func c29PairSlots(lpool, rpool []c29Series, pairs [][2][]int, npat int) (int, func(i int) []ag_Sample) {
+	return len(pairs) * npat, func(i int) []ag_Sample {
+		p := pairs[i/npat]
+		pat := c29Patterns[i%npat]
+		var out []ag_Sample
+		for k, si := range p[0] {
+			out = append(out, ag_Sample{L: lpool[si].labels(), V: pat[0][k]})
+		}
+		for k, si := range p[1] {
+			out = append(out, ag_Sample{L: rpool[si].labels(), V: pat[1][k]})
+		}
+		return out
+	}
+}
+
+// c29Pairs: all (L,R) with L from lsets and R from rsets satisfying keep.
+func c29Pairs(lsets, rsets [][]int, keep func(l, r []int) bool) [][2][]int {
+	var out [][2][]int
+	for _, l := range lsets {
+		for _, r := range rsets {
+			if keep == nil || keep(l, r) {
+				out = append(out, [2][]int{l, r})
+			}
+		}
+	}
+	return out
+}
+
+// ---------------------------------------------------------------------------------------------
+// tiers
+// ---------------------------------------------------------------------------------------------
+
+func c29Tiers(thorough bool) []*c29Tier {
+	var tiers []*c29Tier
+	add := func(t *c29Tier) { tiers = append(tiers, t) }
+	mPool := c29Combos("m")
+	aggPool := append(append([]c29Series{}, mPool...), c29Series{"n", "", ""}, c29Series{"n", "1", ""}, c29Series{"n", "1", "1"})
+	aggExprs := c29AggExprs(thorough)
+	const aggSel = `{__name__=~"m|n"}`
+
+	// A1: every vector of <=2 samples over the 12 aggregation series, all 6 values.
+	n, f := c29VecSlots(aggPool, c29Sets(len(aggPool), 0, 2, -1), c29Vals)
+	add(&c29Tier{Name: "agg-le2", NSlots: n, Slot: f, Exprs: aggExprs, ASel: aggSel, Block: 64,
+		Desc: "every vector of 0..2 samples over 12 series (m x {a,b} in {absent,1,2}, n{}, n{a=1}, n{a=1,b=1}) x 6 values"})
+	// A2: every vector of 3 samples of one metric name.
+	if thorough {
+		v3 := []float64{1, 2, math.NaN(), math.Inf(1), math.Inf(-1)}
+		n, f = c29VecSlots(mPool, c29Sets(len(mPool), 3, 3, -1), v3)
+		add(&c29Tier{Name: "agg-3m-v5", NSlots: n, Slot: f, Exprs: aggExprs, ASel: "m", Block: 64,
+			Desc: "every vector of 3 samples over the 9 series of metric m x values {1,2,NaN,+Inf,-Inf}"})
+		// A3: three samples with mixed metric names.
+		n, f = c29VecSlots(aggPool, c29Sets(len(aggPool), 3, 3, len(mPool)), []float64{1, 2, math.NaN()})
+		add(&c29Tier{Name: "agg-3mixed-v3", NSlots: n, Slot: f, Exprs: aggExprs, ASel: aggSel, Block: 64,
+			Desc: "every vector of 3 samples over the 12 series containing at least one series of metric n x values {1,2,NaN}"})
+	} else {
+		n, f = c29VecSlots(mPool[:6], c29Sets(6, 3, 3, -1), []float64{1, 2, math.NaN()})
+		add(&c29Tier{Name: "agg-3m6-v3", NSlots: n, Slot: f, Exprs: aggExprs, ASel: "m", Block: 64,
+			Desc: "every vector of 3 samples over 6 series of metric m x values {1,2,NaN}"})
+	}
+
+	lPool, rPool := c29Combos("l"), c29Combos("r")
+	allForms := c29OpForms(append(append(append([]string{}, c29ArithOps...), c29CmpOps...), c29SetOps...), true)
+	repForms := []c29OpForm{{"+", false}, {"==", false}, {"<", true}, {">=", false}, {"and", false}, {"or", false}, {"unless", false}}
+
+	// B1: operator x value: single matching pair l{a="1"} / r{a="1"} with all 36 value pairs, and the
+	// scalar forms over all values.
+	{
+		one := c29Series{"l", "1", ""}
+		oner := c29Series{"r", "1", ""}
+		exprs := c29VVExprs(allForms, []c29Clause{{false, false, nil}, {true, true, []string{"a"}}, {true, false, []string{"b"}}},
+			[]c29Group{{0, nil, false}, {1, nil, false}, {2, nil, false}}, c29Fills(1))
+		exprs = append(exprs, c29ScalarExprs()...)
+		nv := len(c29Vals)
+		add(&c29Tier{Name: "op-values", NSlots: nv * nv, Exprs: exprs, LSel: "l", RSel: "r", Block: 36,
+			Slot: func(i int) []ag_Sample {
+				return []ag_Sample{{L: one.labels(), V: c29Vals[i/nv]}, {L: oner.labels(), V: c29Vals[i%nv]}}
+			},
+			Desc: "every operator (bool and filter forms) on l{a=1} op r{a=1}, l op scalar, scalar op r, scalar op scalar x all 36 value pairs"})
+	}
+
+	sets2 := c29Sets(9, 0, 2, -1)
+	sets3 := c29Sets(9, 3, 3, -1)
+	stdAll := c29VVExprs(allForms, c29Clauses(false, false), c29Groups(false), c29Fills(4))
+	stdRep := c29VVExprs(repForms, c29Clauses(false, false), c29Groups(false), c29Fills(4))
+	if thorough {
+		// B2: every operator x matching clause x group modifier x fill on all pairs of <=2-series vectors.
+		n, f = c29PairSlots(lPool, rPool, c29Pairs(sets2, sets2, nil), 1)
+		add(&c29Tier{Name: "match-2x2-allops", NSlots: n, Slot: f, Exprs: stdAll, LSel: "l", RSel: "r", Block: 8,
+			Desc: "every operator form (22) x 8 matching clauses x 7 group modifiers x 4 fill modifiers on every pair of vectors of 0..2 series (9 label sets per side)"})
+		// B3: representative operators on larger vectors.
+		pairs := append(c29Pairs(sets3, sets2, nil), c29Pairs(sets2, sets3, nil)...)
+		n, f = c29PairSlots(lPool, rPool, pairs, 1)
+		add(&c29Tier{Name: "match-3x2-rep", NSlots: n, Slot: f, Exprs: stdRep, LSel: "l", RSel: "r", Block: 32,
+			Desc: "7 representative operator forms (+, ==, < bool, >=, and, or, unless) x 8 clauses x 7 group modifiers x 4 fills on every pair of a 3-series vector with a 0..2-series vector"})
+		minExprs := c29VVExprs([]c29OpForm{{"+", false}, {"==", false}, {"or", false}}, c29Clauses(false, false), []c29Group{{0, nil, false}, {1, nil, false}, {2, []string{"b"}, false}}, c29Fills(2))
+		n, f = c29PairSlots(lPool, rPool, c29Pairs(sets3, sets3, nil), 1)
+		add(&c29Tier{Name: "match-3x3-min", NSlots: n, Slot: f, Exprs: minExprs, LSel: "l", RSel: "r", Block: 128,
+			Desc: "+, == and or x 8 clauses x {none, group_left, group_right(b)} x {none, fill(0)} on every pair of 3-series vectors"})
+		n, f = c29PairSlots(lPool, rPool, c29Pairs(sets2, sets2, nil), 2)
+		add(&c29Tier{Name: "match-2x2-rep-pattern2", NSlots: n / 2, Slot: func(i int) []ag_Sample { return f(2*i + 1) }, Exprs: stdRep, LSel: "l", RSel: "r", Block: 32,
+			Desc: "the 7 representative forms x std modifier product on every pair of 0..2-series vectors with the second value pattern (NaN/Inf operands)"})
+		// B5: unusual spellings: ignoring(), unsorted on(b,a), on(absent label), group_left(), two include labels,
+		// include of an absent label, all six fill spellings.
+		xExprs := c29VVExprs(repForms, c29Clauses(false, true), c29Groups(true), c29Fills(6))
+		n, f = c29PairSlots(lPool, rPool, c29Pairs(sets2, sets2, func(l, r []int) bool { return len(l) <= 1 || len(r) <= 1 }), 1)
+		add(&c29Tier{Name: "match-extras", NSlots: n, Slot: f, Exprs: xExprs, LSel: "l", RSel: "r", Block: 16,
+			Desc: "the 7 representative forms x 11 clauses (adds ignoring(), on(b,a), on(c)) x 10 group modifiers (adds group_left(), group_left(a,b), group_right(c)) x 6 fills (adds two-sided and NaN/Inf fills) on pairs with a 0..1-series side"})
+	} else {
+		qExprs := c29VVExprs(allForms, c29Clauses(false, false), c29Groups(false)[:5], c29Fills(3))
+		n, f = c29PairSlots(lPool, rPool, c29Pairs(sets2, sets2, func(l, r []int) bool { return len(l) <= 1 && len(r) <= 1 }), 1)
+		add(&c29Tier{Name: "match-1x1-allops", NSlots: n, Slot: f, Exprs: qExprs, LSel: "l", RSel: "r", Block: 8,
+			Desc: "every operator form (22) x 8 matching clauses x 5 group modifiers x 3 fill modifiers on every pair of vectors of 0..1 series"})
+		s6 := c29Sets(6, 0, 2, -1)
+		n, f = c29PairSlots(lPool, rPool, c29Pairs(s6, s6, func(l, r []int) bool { return len(l) == 2 || len(r) == 2 }), 1)
+		add(&c29Tier{Name: "match-2x2s-rep", NSlots: n, Slot: f, Exprs: stdRep, LSel: "l", RSel: "r", Block: 32,
+			Desc: "7 representative operator forms (+, ==, < bool, >=, and, or, unless) x 8 clauses x 7 group modifiers x 4 fills on every pair of 0..2-series vectors (6 label sets per side) with a 2-series side"})
+	}
+	// B4: metric-name handling: operands that mix two metric names (duplicate label sets once the
+	// name is dropped), on(__name__) / ignoring(__name__).
+	{
+		np := c29If(thorough, 3, 4)
+		lp := append(append([]c29Series{}, lPool[:np]...), c29Series{"k", "", ""}, c29Series{"k", "1", ""}, c29Series{"k", "1", "1"})
+		rp := append(append([]c29Series{}, rPool[:np]...), c29Series{"q", "", ""}, c29Series{"q", "1", ""}, c29Series{"q", "1", "1"})
+		ls := c29Sets(len(lp), 0, 2, -1)
+		touch := func(s []int) bool {
+			for _, i := range s {
+				if i >= np {
+					return true
+				}
+			}
+			return false
+		}
+		n, f = c29PairSlots(lp, rp, c29Pairs(ls, ls, func(l, r []int) bool { return touch(l) || touch(r) }), 1)
+		forms := []c29OpForm{{"+", false}, {"==", false}, {"!=", true}, {">=", false}, {"and", false}, {"or", false}, {"unless", false}}
+		exprs := c29VVExprs(forms, c29Clauses(true, false), c29Groups(false), c29Fills(c29If(thorough, 2, 3)))
+		for _, e := range c29ScalarExprs() {
+			if e.Kind != "ss" && (e.SLText == "1" || e.SRText == "1") && (e.Op == "*" || e.Op == ">=" || e.Op == "==") {
+				exprs = append(exprs, e)
+			}
+		}
+		add(&c29Tier{Name: fmt.Sprintf("names%d", np+3), NSlots: n, Slot: f, Exprs: exprs, LSel: `{__name__=~"l|k"}`, RSel: `{__name__=~"r|q"}`, Block: 32,
+			Desc: fmt.Sprintf("operands mixing metric names (l,k | r,q; %d series per side, 0..2 per operand, at least one second-name series) x 7 operator forms x 11 matching clauses incl. on(__name__), on(__name__,a), ignoring(__name__) x 7 group modifiers x fills, plus vector/scalar forms", np+3)})
+	}
+	if thorough {
+		// the delayed-name-removal engine must produce the same documented results
+		for _, t := range append([]*c29Tier{}, tiers...) {
+			if t.Name == "agg-le2" || t.Name == "op-values" || t.Name == "names7" {
+				c := *t
+				c.Name += "/delayed-name-removal"
+				c.Delayed = true
+				c.Desc += " (engine option EnableDelayedNameRemoval)"
+				add(&c)
+			}
+		}
+	}
+	return tiers
+}
+
+// ---------------------------------------------------------------------------------------------
+// driver
+// ---------------------------------------------------------------------------------------------
+
+type c29Replay struct {
+	Tier  string `json:"tier"`
+	Slot  int    `json:"slot"`
+	Expr  int    `json:"expr"`
+	Query string `json:"query"`
+	Input string `json:"input"`
+}
+
+type c29Ctx struct {
+	r       *vx.Run
+	engines [2]*promql.Engine
+	n       atomic.Int64
+}
+
+func (c *c29Ctx) engine(delayed bool) *promql.Engine {
+	if delayed {
+		return c.engines[1]
+	}
+	return c.engines[0]
+}
+
+// runBlock stores slots [from,to) of the tier in a fresh storage and evaluates every expression
+// of the tier on every slot. onlyExpr >= 0 restricts to one expression (replay).
+func (c *c29Ctx) runBlock(t *c29Tier, from, to, onlyExpr int) error {
 	stor, err := ag_NewStorage()
 	if err != nil {
-		t.Fatal(err)
+		return err
 	}
 	defer stor.Close()
-	eng := ag_NewEngine(false, 1000000)
-	defer eng.Close()
 	app := stor.Appender(context.Background())
-	N := 200
-	for i := 0; i < N; i++ {
-		for _, a := range []string{"", "1", "2"} {
-			for _, b := range []string{"", "1"} {
-				if _, err := app.Append(0, labels.FromStrings("__name__", "l", "a", a, "b", b), int64(i)*600000, float64(i%3)); err != nil {
-					t.Fatal(err)
-				}
-				if _, err := app.Append(0, labels.FromStrings("__name__", "r", "a", a, "b", b), int64(i)*600000, float64(i%3)); err != nil {
-					t.Fatal(err)
-				}
+	slots := make([][]ag_Sample, 0, to-from)
+	for i := from; i < to; i++ {
+		ss := t.Slot(i)
+		slots = append(slots, ss)
+		ts := int64(i-from+1) * c29SlotMs
+		for _, s := range ss {
+			if _, err := app.Append(0, labels.FromMap(s.L), ts, s.V); err != nil {
+				return fmt.Errorf("append %v: %w", s.L, err)
 			}
 		}
 	}
 	if err := app.Commit(); err != nil {
-		t.Fatal(err)
+		return err
 	}
-	for _, q := range []string{"sum by (a) (l)", "l + on(a) group_left r", "topk(2, l)", "l"} {
-		t0 := time.Now()
-		n := 20000
-		for i := 0; i < n; i++ {
-			o := ag_Instant(eng, stor, q, int64(i%100*2)*600000)
-			if i == 7 {
-				fmt.Println(o.ag_Canon())
+	eng := c.engine(t.Delayed)
+	r := c.r
+	for k, ss := range slots {
+		if r.Expired() {
+			return nil
+		}
+		ts := int64(k+1) * c29SlotMs
+		agg := c29Pick(ss, "m", "n")
+		lhs := c29Pick(ss, "l", "k")
+		rhs := c29Pick(ss, "r", "q")
+		for ei, e := range t.Exprs {
+			if onlyExpr >= 0 && ei != onlyExpr {
+				continue
+			}
+			q := e.Text(t.ASel, t.LSel, t.RSel)
+			got := ag_Instant(eng, stor, q, ts)
+			exp := c29Ref(e, agg, lhs, rhs)
+			sig, msg := c29Check(e, exp, got)
+			cnt := c.n.Add(1)
+			if sig != "" {
+				sig, msg = c29Classify(e, exp, got, agg, lhs, rhs, sig, msg)
+				r.Violation(sig, fmt.Sprintf("%s over %s: %s", q, ag_VecString(ss), msg),
+					c29Replay{Tier: t.Name, Slot: from + k, Expr: ei, Query: q, Input: ag_VecString(ss)})
+			}
+			// coverage accounting
+			outcome := "empty"
+			switch {
+			case got.Err != nil:
+				outcome = "error"
+			case exp.IsScalar:
+				outcome = "scalar " + ag_F(got.Scalar)
+			case len(got.Vector) > 0:
+				outcome = ag_VecString(got.Vector)
+			}
+			if outcome != "empty" {
+				r.Distinct("distinct_nontrivial", e.Form()+"|"+outcome)
+			}
+			r.Distinct("distinct_outcomes", outcome)
+			r.Distinct("expression_forms", e.Form())
+			if got.Err != nil {
+				r.Count("matching_errors_predicted", 1)
+			}
+			r.SampleAt(cnt, func() any {
+				return map[string]any{"tier": t.Name, "query": q, "input": ag_VecString(ss), "result": got.ag_Canon()}
+			})
+		}
+	}
+	return nil
+}
+
+// c29Classify gives known, precondition-based classes of divergence their own narrow signature.
+func c29Classify(e *c29Expr, exp *c29Expect, got *ag_Outcome, agg, lhs, rhs []ag_Sample, sig, msg string) (string, string) {
+	// group_right combined with a one-sided fill: does the engine's answer equal the documented
+	// answer of the same expression with fill_left and fill_right exchanged?
+	if e.Kind == "vv" && e.Card == 2 && (e.FillL != nil || e.FillR != nil) {
+		sw := *e
+		sw.FillL, sw.FillR = e.FillR, e.FillL
+		if s2, _ := c29Check(&sw, c29RefVV(&sw, lhs, rhs), got); s2 == "" {
+			return "binop-group-right-fill-sides-swapped", msg + " [the result is the documented result of the expression with fill_left and fill_right exchanged]"
+		}
+	}
+	// quantile whose rank falls exactly on a sample next to (or on) an infinite sample
+	if e.Kind == "agg" && e.Op == "quantile" && sig == "agg-wrong-value" {
+		alt := c29RefAggAlt(e, agg, true)
+		if s2, _ := c29Check(e, alt, got); s2 == "" {
+			return "agg-quantile-nan-at-infinite-sample", msg + " [the result is 0*Inf=NaN from interpolating with weight 0 towards an infinite neighbour]"
+		}
+	}
+	return sig, msg
+}
+
+func TestVerifC29(t *testing.T) {
+	r := vx.Start(t, "C29", "exploration")
+	defer r.Finish()
+	ctx := &c29Ctx{r: r}
+	ctx.engines[0] = ag_NewEngine(false, 50000000)
+	ctx.engines[1] = ag_NewEngine(true, 50000000)
+	defer ctx.engines[0].Close()
+	defer ctx.engines[1].Close()
+	for _, a := range c29Assumptions {
+		r.Assume(a)
+	}
+	r.Assume("trusted: util/teststorage (a real TSDB head) returns the stored samples; slots are 10 minutes apart (lookback 5m) so each instant sees one input vector")
+
+	if r.Replay != "" {
+		var rp c29Replay
+		r.LoadReplay(&rp)
+		for _, th := range []bool{false, true} {
+			for _, tr := range c29Tiers(th) {
+				if tr.Name == rp.Tier && rp.Slot < tr.NSlots && rp.Expr < len(tr.Exprs) && tr.Exprs[rp.Expr].Text(tr.ASel, tr.LSel, tr.RSel) == rp.Query {
+					if err := ctx.runBlock(tr, rp.Slot, rp.Slot+1, rp.Expr); err != nil {
+						t.Fatal(err)
+					}
+					return
+				}
 			}
 		}
-		fmt.Printf("%s: %v/query\n", q, time.Since(t0)/time.Duration(n))
+		t.Fatalf("replay: tier %q / query %q not found", rp.Tier, rp.Query)
+	}
+
+	c29SelfTest(t)
+
+	tiers := c29Tiers(r.Thorough())
+	type block struct {
+		t        *c29Tier
+		from, to int
+	}
+	var blocks []block
+	tierInfo := map[string]any{}
+	var total int64
+	for _, tr := range tiers {
+		for from := 0; from < tr.NSlots; from += tr.Block {
+			to := from + tr.Block
+			if to > tr.NSlots {
+				to = tr.NSlots
+			}
+			blocks = append(blocks, block{tr, from, to})
+		}
+		tierInfo[tr.Name] = map[string]any{"input_slots": tr.NSlots, "expressions": len(tr.Exprs), "cases": tr.NSlots * len(tr.Exprs), "what": tr.Desc}
+		total += int64(tr.NSlots) * int64(len(tr.Exprs))
+	}
+	r.Set("tiers", tierInfo)
+	r.Set("cases_planned", total)
+	var failed atomic.Value
+	r.ParallelN(int64(len(blocks)), func(i int64) {
+		b := blocks[i]
+		if err := ctx.runBlock(b.t, b.from, b.to, -1); err != nil {
+			failed.Store(err)
+		}
+	})
+	if err, _ := failed.Load().(error); err != nil {
+		t.Fatalf("harness failure: %v", err)
+	}
+	r.Count("evaluations", int(ctx.n.Load()))
+	r.Set("rule", "one case = one generated expression evaluated as an instant query on one stored input vector (pair); the tiers list the enumerated products. distinct_nontrivial = distinct (expression form, non-empty result or error) combinations; distinct_outcomes = distinct result vectors/scalars/errors; an empty result is trivial")
+	r.Set("values", "1 2 0 NaN +Inf -Inf")
+	if !r.Expired() && r.Get("evaluations") != total {
+		t.Fatalf("enumeration incomplete: %d of %d cases", r.Get("evaluations"), total)
+	}
+	if ctx.n.Load() > 1000 && r.Get("matching_errors_predicted") == 0 {
+		t.Fatal("vacuous: no matching error was ever produced")
+	}
+}
+
+// c29SelfTest shows that the comparison is not vacuous: deliberately wrong engine answers are rejected.
+func c29SelfTest(t *testing.T) {
+	in := []ag_Sample{
+		{L: map[string]string{c29Name: "m", "a": "1"}, V: 1},
+		{L: map[string]string{c29Name: "m", "a": "2"}, V: math.NaN()},
+		{L: map[string]string{c29Name: "m", "a": "2", "b": "1"}, V: 2},
+	}
+	vec := func(s ...ag_Sample) *ag_Outcome { return &ag_Outcome{Type: "vector", Vector: s} }
+	sum := &c29Expr{Kind: "agg", Op: "sum", Grp: &c29Grouping{false, []string{"a"}}}
+	good := vec(ag_Sample{L: map[string]string{"a": "1"}, V: 1}, ag_Sample{L: map[string]string{"a": "2"}, V: math.NaN()})
+	if sig, msg := c29Check(sum, c29RefAgg(sum, in), good); sig != "" {
+		t.Fatalf("self-test: correct sum rejected: %s %s", sig, msg)
+	}
+	bad := vec(ag_Sample{L: map[string]string{"a": "1"}, V: 1}, ag_Sample{L: map[string]string{"a": "2"}, V: 2})
+	if sig, _ := c29Check(sum, c29RefAgg(sum, in), bad); sig != "agg-wrong-value" {
+		t.Fatalf("self-test: NaN-ignoring sum accepted (%q)", sig)
+	}
+	badl := vec(ag_Sample{L: map[string]string{"a": "1", c29Name: "m"}, V: 1}, ag_Sample{L: map[string]string{"a": "2"}, V: math.NaN()})
+	if sig, _ := c29Check(sum, c29RefAgg(sum, in), badl); sig != "agg-wrong-result-labels" {
+		t.Fatalf("self-test: kept metric name accepted (%q)", sig)
+	}
+	topk := &c29Expr{Kind: "agg", Op: "topk", HasParam: true, ParamText: "1", ParamF: 1}
+	if sig, _ := c29Check(topk, c29RefAgg(topk, in), vec(in[1])); sig != "agg-k-wrong-selection" {
+		t.Fatalf("self-test: topk returning NaN over 2 accepted (%q)", sig)
+	}
+	if sig, msg := c29Check(topk, c29RefAgg(topk, in), vec(in[2])); sig != "" {
+		t.Fatalf("self-test: correct topk rejected: %s %s", sig, msg)
+	}
+	q := &c29Expr{Kind: "agg", Op: "quantile", HasParam: true, ParamText: "0.5", ParamF: 0.5}
+	if v := c29RefAgg(q, in).Exact[0].V; v != 1 {
+		t.Fatalf("self-test: reference median of {1,NaN,2} with NaN smallest = %v", v)
+	}
+	lhs := []ag_Sample{{L: map[string]string{c29Name: "l", "a": "1", "b": "1"}, V: 1}, {L: map[string]string{c29Name: "l", "a": "1", "b": "2"}, V: 2}}
+	rhs := []ag_Sample{{L: map[string]string{c29Name: "r", "a": "1"}, V: 2}}
+	add := &c29Expr{Kind: "vv", Op: "+", HasMatch: true, On: true, MLabels: []string{"a"}}
+	if exp := c29RefVV(add, lhs, rhs); !exp.MustErr {
+		t.Fatal("self-test: many-to-one without group_left not predicted as error")
+	}
+	if sig, _ := c29Check(add, c29RefVV(add, lhs, rhs), vec()); sig != "binop-missing-matching-error" {
+		t.Fatalf("self-test: missing matching error accepted (%q)", sig)
+	}
+	add.Card = 1
+	exp := c29RefVV(add, lhs, rhs)
+	if exp.MustErr || len(exp.Exact) != 2 || exp.Exact[0].V != 3 || exp.Exact[1].V != 4 || exp.Exact[0].L[c29Name] != "" {
+		t.Fatalf("self-test: group_left reference wrong: %+v", exp)
+	}
+	fr := &c29Expr{Kind: "vv", Op: "-", Card: 2, HasMatch: true, On: true, MLabels: []string{"a"}, FillL: c29F(5)}
+	exp = c29RefVV(fr, nil, rhs)
+	if len(exp.Exact) != 1 || exp.Exact[0].V != 3 {
+		t.Fatalf("self-test: fill_left with group_right must fill the LEFT operand: %+v", exp)
 	}
 }
